@@ -10,6 +10,7 @@ def main():
     sys.path.insert(0, job['verif'])
     from harness import pelrun, project, seams
     seams.install_fixture_plugins()
+    seams.install_registry()
     res = pelrun.decode(bytes.fromhex(job['hex']), job['plugins'])
     if res['doc'] is not None:
         print(json.dumps(dict(digest=project.digest(res['doc']), outcome='doc')))
